@@ -283,7 +283,8 @@ def r3_reward(ctx):
         # distinguish old (version 0) and later reads
         root, path = q.fields_path(e)
         if root[0] in ("var", "param") and path and path[0] in ("tips", "fee_pool") and (len(path) == 1 or path[1:] == ["0"]):
-            ver = root[2] if (root[0] == "var" and len(root) > 2) else 0
+            # a variable carries its version as 3rd component, a `&mut` parameter whose pointee was written before the read as 4th
+            ver = root[2] if (root[0] == "var" and len(root) > 2) else (root[3] if (root[0] == "param" and len(root) > 3) else 0)
             return "%s@%d" % (path[0], ver)
         return None
     # fee_pool delta
